@@ -64,6 +64,7 @@ type World struct {
 	sumCache    map[string][]string
 	fninfo      map[*ssa.Function]*FnInfo
 	callerIdx   map[*ssa.Function][]ssa.CallInstruction
+	errClsBusy  map[*ssa.Function]bool
 }
 
 type LoadCfg struct {
